@@ -175,6 +175,10 @@ class IncomingBallsHandler(BallDeviceStateHandler):
                 self.ball_device.log.warning("Incoming ball from %s timeouted.", incoming_ball.source)
                 self._incoming_balls.remove(incoming_ball)
 
+            if timeouts:
+                # those balls no longer block a slot. sources which wait for free space have to check again
+                self.ball_device.ball_count_handler.wake_waiting_sources()
+
             for incoming_ball in timeouts:
                 await self.ball_device.lost_incoming_ball(source=incoming_ball.source)
 
